@@ -128,7 +128,7 @@ def main():
                      ('tags.1', templates.single('tags.1', S_('a'))), ('n.0.f', templates.single('n.0.f', S_('a'))),
                      ('n.f[1]', templates.single('n.f[1]', S_('a'))), ('not n.1', {'idents': {'A': M_((K_('n.1'), S_('a')))}, 'cond': ('not', ('id', 'A'))})):
         reps.append(('numeric-segment/' + nm, templates.render(rule)))
-    ck.run_units([('prims',), ('serde',), ('containers',), ('kernel',), ('overrides',)] + [('representations', nm, y) for nm, y in reps], run_unit, jobs=8)
+    ck.run_units([('prims',), ('serde',), ('containers',), ('kernel',), ('overrides',), ('delegation',)] + [('representations', nm, y) for nm, y in reps], run_unit, jobs=8)
     ck.finish('every AsValue adapter executed from MIR on symbolic inputs; YAML and JSON number adapters against one abstract number; '
               'comparison kernel Int vs UInt')
 
@@ -384,6 +384,12 @@ def value_of(v):
 
 def run_unit(ck, unit):
     kind = unit[0]
+    if kind == 'delegation':
+        # a hand-written Object (which may answer `find` itself) used as a document, at the top level or as a nested value:
+        # every key goes to its `find` (shared with C10)
+        import C10
+        C10.delegation_unit(ck, ck.program())
+        return
     if kind == 'overrides':
         # a container's Object impl that overrides find() would make that representation resolve keys differently
         import C10
